@@ -347,6 +347,8 @@ def run_listen(c):
                     st.proto.get_info('version').addErrback(lambda f: None)
                 st.proto.connectionLost(Failure(error.ConnectionLost()))
             else:
+                if c.get('stale_failed'):
+                    st.event('HS_DESC FAILED %s UNKNOWN %s REASON=UPLOAD_REJECTED' % (sid, '$%040X' % 3))
                 dirs = ['$%040X' % i for i in (1, 2)]
                 for d in dirs:
                     st.event('HS_DESC UPLOAD %s UNKNOWN %s descid' % (sid, d))
@@ -438,6 +440,8 @@ def wait_history(c):
         h = ['r']
     if f == 'command':
         return known0, False, h
+    if c.get('stale_failed'):
+        h = h + ['f:1:3']       # a FAILED report about a directory this wait never saw an UPLOAD for (left over from an earlier run of the service)
     return known0, True, h + (['l'] if f == 'disconnect' else ours)
 
 
@@ -600,6 +604,11 @@ def gen_cases(rng, tier):
         if kind == 'eph' and fail in ('none', 'uploads') and local_port is None:
             yield {'api': 'listen', 'kind': kind, 'version': version, 'key': key, 'fail': fail, 'public': public, 'local_port': local_port,
                    'foreign_first': True}
+        if kind != 'eph-basic' and fail == 'none' and local_port is None:
+            # a FAILED report for a directory this wait has seen no UPLOAD for comes first: it settles nothing (with the uploads
+            # that follow all failing the history would be outside C15's hypothesis — Tor reports FAILED for uploads it announced)
+            yield {'api': 'listen', 'kind': kind, 'version': version, 'key': key, 'fail': fail, 'public': public, 'local_port': local_port,
+                   'stale_failed': True}
         if kind.startswith('fs') and fail in ('none', 'uploads') and local_port is None:
             # Tor reports the uploads (or their failure) before it answers the SETCONF
             yield {'api': 'listen', 'kind': kind, 'version': version, 'key': key, 'fail': fail, 'public': public, 'local_port': local_port,
